@@ -5,6 +5,7 @@ import (
 	"errors"
 	"github.com/LemoFoundationLtd/lemochain-core/common"
 	"github.com/LemoFoundationLtd/lemochain-core/common/crypto"
+	"math/big"
 )
 
 var (
@@ -35,6 +36,14 @@ func recoverSigners(sigHash common.Hash, sigs [][]byte) ([]common.Address, error
 	}
 	signers := make([]common.Address, length, length)
 	for i := 0; i < length; i++ {
+		// Only the canonical (low s) encoding of a signature is accepted. Otherwise anyone could re-encode the signature of a signed transaction to (r, n-s, v^1), which recovers the same signer but changes the transaction hash, and replay the transaction
+		if len(sigs[i]) == TxSigLength {
+			r := new(big.Int).SetBytes(sigs[i][:32])
+			s := new(big.Int).SetBytes(sigs[i][32:64])
+			if !crypto.ValidateSignatureValues(sigs[i][64], r, s) {
+				return nil, ErrInvalidSig
+			}
+		}
 		// recover the public key from the signature
 		pub, err := crypto.Ecrecover(sigHash[:], sigs[i])
 		if err != nil {
